@@ -466,6 +466,8 @@ class Body:
             if c.get("zst"):
                 return ("zst", c["ty"])
             if "tyconst" in c:
+                if isinstance(c["tyconst"], dict) and "int" in c["tyconst"]:
+                    return ("int", int(c["tyconst"]["int"]), c["ty"])
                 return ("tyconst", _hashable(c["tyconst"]), c["ty"])
             return ("const", _hashable(c))
         return ("otherop", str(op))
